@@ -123,6 +123,17 @@ JudgeC03(e) ==
           <<e.res # "nil" \/ ~Has(e, "consumed") \/ e.consumed = Len(c.enc), "DecodeBebop consumed a different number of bytes">> >>)
     [] OTHER -> NAv
 
+\* payloads beyond buffer sizes: the value's first string / byte array stretched to e.k bytes by the harness (TLC does
+\* not enumerate payloads of that size); the encoding is the real encoder's (e.n bytes = Size()); the statement is that
+\* of a stream record (C05) and of the round trip (C01)
+JudgeBig(e) ==
+  LET what == "a record with a payload of " \o ToString(e.k) \o " bytes on a stream (" \o e.style \o "): " IN
+  IF e.style = "encode" THEN Bad(what \o "MarshalBebop fails or does not produce Size() bytes")
+  ELSE FirstBad(<<
+       <<e.res = "nil", what \o e.api \o " returned " \o e.res>>,
+       <<e.res # "nil" \/ e.consumed = e.n, what \o "consumed a number of bytes different from the record's length">>,
+       <<e.res # "nil" \/ e.tail_ok, what \o "decoded value differs from the value written">> >>)
+
 \* C01: every encoder paired with every decoder returns the value
 JudgeC01(e) ==
   LET c == CaseOf(e)  S == SchemaOf(c)  t == TypeOf(c) IN
@@ -138,6 +149,7 @@ JudgeC01(e) ==
         IN IF ideal.v = "OK" THEN ideal
            ELSE IF AsIsExplainsDec(Devs, S, t, c, e) # "" THEN Known(AsIsExplainsDec(Devs, S, t, c, e), ideal.why)
            ELSE ideal
+    [] e.ev = "bigrec" -> JudgeBig(e)
     [] OTHER -> NAv
 
 \* C09: generator options never change the wire.  The specification has no
@@ -231,15 +243,7 @@ JudgeC05(e) ==
              <<e.res # "nil" \/ e.consumed = e.n, what \o "consumed a number of bytes different from the record's length">>,
              <<e.res # "nil" \/ e.kind # "ref" \/ e.n = Len(RecEnc(c, e.rec)), what \o "record length differs from the reference encoding">>,
              <<e.res # "nil" \/ ValOf(e) = Norm(S, t, v), what \o "decoded value differs from the value written">> >>)
-    [] e.ev = "bigrec" ->
-        \* the value's first string / byte array stretched to e.k bytes by the harness (TLC does not enumerate payloads of
-        \* that size); the encoding is the real encoder's (e.n bytes = Size()), the statement is the same as for "srec"
-        LET what == "a record with a payload of " \o ToString(e.k) \o " bytes on a stream (" \o e.style \o "): " IN
-        IF e.style = "encode" THEN Bad(what \o "MarshalBebop fails or does not produce Size() bytes")
-        ELSE FirstBad(<<
-             <<e.res = "nil", what \o "DecodeBebop returned " \o e.res>>,
-             <<e.res # "nil" \/ e.consumed = e.n, what \o "consumed a number of bytes different from the record's length">>,
-             <<e.res # "nil" \/ e.tail_ok, what \o "decoded value differs from the value written">> >>)
+    [] e.ev = "bigrec" -> JudgeBig(e)
     [] OTHER -> NAv
 
 \* C04: bytes written under the newer schema decode under the older one to the
